@@ -13,5 +13,6 @@ MCSeeds == {
 MCIds == 1..2
 MCOps == {"New", "Mul", "IMul", "Div", "IDiv", "Normalize", "NegRefused", "ForeignRefused", "Copy"}
 MCSliceArgs == {<<1, NoneIx>>, <<NoneIx, -1>>, <<1, 3>>}
+MCTakeArgs == {<<0>>}
 MCScalars == {<<2, 1, "pyint">>, <<1, 2, "pyfloat">>, <<3, 1, "pyint">>, <<1, 4, "f4">>, <<4, 1, "i2">>, <<1, 1, "pyint">>}
 =============================================================================
